@@ -1000,3 +1000,8 @@ func ruleC04SideIdent(c *Ctx) {
 	}
 	c.Check(len(why) == 0, "c04.side-ident", "BuildFromAliasedTable", c.P.Pos(f.Pos()), fmt.Sprintf("%d paths install aliased rows, each with its identifier", n), strings.Join(uniq(why), "; "))
 }
+
+
+// two keys that Compare calls equal must land in the same bucket: the text a key contributes is part of the value
+// ordering's coherence (C15: equality of join keys agrees with the comparison operators)
+func init() { register("C15", ruleC04KeyEncoding) }
